@@ -6,8 +6,8 @@ Kernels:
   * _unit_format (contract-based, real source, every value and style): compact shows no unit text, short the abbreviation, long the unit
     name with an 's' unless the value is 1;
   * directive table (complete ground checks): every directive of DATETIME_FIELD_MAP that is computed by a lambda reads only the field(s) its
-    documented meaning depends on (syntactic), and over the whole domain of that field (24 hours, 60 minutes, 60 seconds, every day of
-    four years, 12 months, 7 weekdays, sub-second prefixes) it renders the documented value, range and padding;
+    documented meaning depends on (syntactic), and over the whole domain of a clock field (24 hours, 60 minutes, 60 seconds) - for date
+    fields every day of 33 years incl. century years, a sample of the date domain - it renders the documented value, range and padding;
   * Formatting.__post_init__ accepts exactly the directives the table knows (syntactic: same table object).
 The format parser (_decode_date_format) and _duration_format (float arithmetic) are exercised by the bounded stand-in with an independent
 oracle: they are not brought under contract (string-state-machine induction / float division are outside the VC generator's reach).
@@ -145,8 +145,8 @@ def build():
 
     plan.bounded.append(BoundedStandIn(
         "dates-and-durations", "c14_datetime.py", [], thorough_args=["--level", "2"],
-        bound="every directive over its field domain (24 hours x 2 minutes, 60 minutes, 60 seconds, every day of 2018/2021/2023/2024, 12 sampled "
-              "years, 17 sub-second values); 3200 (thorough 16000) random compositions of 1..7 parts (directives, literal punctuation/digits/non-ASCII, "
+        bound="every directive over its field domain (24 hours x 2 minutes, 60 minutes, 60 seconds, every day of 33 years incl. the century years "
+              "1700..2400, year 1 and 9999, 12 sampled years, 17 sub-second values); 3200 (thorough 16000) random compositions of 1..7 parts (directives, literal punctuation/digits/non-ASCII, "
               "quoted text with escaped quotes) against the concatenation of the parts; durations: 3 styles x all 21 largest/smallest unit pairs + "
               "automatic units x 30 boundary values and 300+ (thorough 2000+) random values over 0..10 years at millisecond resolution, displayed "
               "text parsed back unit by unit and compared with the duration truncated to the smallest unit shown",
